@@ -79,6 +79,7 @@ pub enum K {
     SortSmall,
     CuckooToPerm,
     DecomposeSwitch,
+    DupSwap,
 }
 
 #[derive(Clone, Debug, Serialize, Deserialize, PartialEq, Eq, Hash)]
@@ -924,6 +925,26 @@ impl<'a> Builder<'a> {
                 let c = g.constant(t, Value::from_bytes(encode_leaf(&map, UINT64))).ok()?;
                 let ic = pool.push(c);
                 g.decompose_switching_map(pool.nodes[ic].clone(), n).ok().map(|n| pool.push(n))
+            }
+            K::DupSwap => {
+                // re-add an existing two-operand node with its operands SWAPPED (Subtract, Dot,
+                // Matmul, Gemm, MixedMultiply ... are not commutative: an optimiser must not treat
+                // the two as duplicates); skipped when the swapped form does not type-check
+                let cands: Vec<usize> = (0..pool.nodes.len())
+                    .filter(|i| {
+                        let n = &pool.nodes[*i];
+                        let d = n.get_node_dependencies();
+                        d.len() == 2 && d[0] != d[1] && n.get_graph_dependencies().is_empty()
+                    })
+                    .collect();
+                if cands.is_empty() {
+                    return None;
+                }
+                let n = pool.nodes[cands[cands.len() - 1 - pick(s.a, cands.len())]].clone();
+                let d = n.get_node_dependencies();
+                g.add_node(vec![d[1].clone(), d[0].clone()], vec![], n.get_operation())
+                    .ok()
+                    .map(|n| pool.push(n))
             }
             K::Dup => {
                 // re-add an existing node: same operation, same dependencies
